@@ -11,6 +11,14 @@ if rnd > 1:
       prior.append(json.load(open(m)).get('summary', ''))
     except Exception:
       pass
+  # candidates of the previous round that are still being confirmed (not filed yet)
+  for m in sorted(glob.glob(f'/tmp/seed{rnd - 1}-{pid}/_seeded/change*/meta.json')):
+    try:
+      t = json.load(open(m)).get('summary', '')
+      if t and t not in prior:
+        prior.append(t)
+    except Exception:
+      pass
 for l in open('/verif/properties.jsonl'):
   d = json.loads(l)
   if d['id'] == pid: break
